@@ -334,3 +334,9 @@ Proof.
   destruct (is_reset s); [eexists; reflexivity|].
   destruct ((0 <? max_retries (ropts s)) && (max_retries (ropts s) <? cur s + 1)); eexists; reflexivity.
 Qed.
+
+(** The schedule does not depend on the context or the closer: the options a
+    loop works with are the normalised options it was started with, whatever
+    the context (live, cancelled, with or without a deadline) and for ever. *)
+Lemma options_fixed o c0 x0 s : reachable o c0 x0 s -> ropts s = normalize o.
+Proof. intros R. destruct (reachable_inv _ _ _ _ R) as (Ho & _). exact Ho. Qed.
